@@ -36,7 +36,7 @@ def tier_timeout(tier):
     v = os.environ.get("VERIF_HARNESS_TIMEOUT")
     if v:
         return int(v)
-    return 300 if tier == "quick" else 2400
+    return 600 if tier == "quick" else 2400
 
 
 def select(prop, tier, only=None):
@@ -417,8 +417,9 @@ def write_evidence(prop, tier, seed, recs, oks, violations, known_hits, inconclu
         assumptions.add("k8 profile: 8-bit-word build derived from the current source by vlib/narrow.py "
                         "(Word=u8, WideWord=u16; width-specific arms replaced, reciprocal() by its definition)")
     if "k8k" in profiles:
-        assumptions.add("k8k profile: the k8 build with KARATSUBA_MIN_STARTING_LIMBS = 2 and KARATSUBA_MAX_REDUCE_LIMBS = 1 "
-                        "(real values 32 / 24) so that the recursive boxed Karatsuba bodies run at 2..6 limbs; "
+        assumptions.add("k8k profile: the k8 build with KARATSUBA_MIN_STARTING_LIMBS = 2, KARATSUBA_MAX_REDUCE_LIMBS = 1 and "
+                        "RADIX_ENCODING_LIMBS_LARGE = 2 (real values 32 / 24 / 32) so that the recursive boxed Karatsuba bodies "
+                        "and the large-divisor recursion of the radix encoder run at 2..6 limbs; "
                         "the behaviour at the real thresholds (operands of 32 limbs and more) is outside the bound")
     if "k64r" in profiles:
         assumptions.add("k64r profile: RUSTFLAGS=-C debug-assertions=off and --no-overflow-checks (release semantics)")
